@@ -8,7 +8,7 @@ git diff --quiet || { echo "/repo is not clean"; exit 2; }
 git apply "$d/patch.diff" || { echo "patch does not apply"; exit 2; }
 for p in $props; do
   echo "--- ./check $p with $(basename $d) applied"
-  (cd /verif && ./check $p 2>&1 | grep "functions=\|VIOLATION\|FAILED-OBLIGATION\|UNDECIDED\|ENGINE" | cut -c1-230 | head -12; )
+  (cd /verif && VERIF_EVIDENCE_DIR=/tmp/seed-evidence ./check $p 2>&1 | grep "functions=\|VIOLATION\|FAILED-OBLIGATION\|UNDECIDED\|ENGINE" | cut -c1-230 | head -12; )
 done
 git -C /repo checkout -- .
 git -C /repo status --short | head -3
